@@ -289,7 +289,26 @@ def check_case(ctx, case):
         st = (o["to"], o["name"], o["kind"] == "STANDARD")
         if not gen_rows or gen_rows[-1][1] != st or True:
             gen_rows.append((t, st))
+    # a window that starts exactly at a transition instant: the generator writes the state before it as a first observance of zero
+    # length, followed by the real one at the same instant - no instant inside [lo, hi) is affected; the edge instant itself is not judged
+    edge = False
+    while len(gen_rows) > 1 and gen_rows[1][0] == gen_rows[0][0] == lo and gen_rows[0][1] == state_at(tz, lo - timedelta(seconds=1)):
+        gen_rows.pop(0)
+        edge = True
+        ctx.count("zero-length-first-observance")
+    # a window that starts exactly at a transition instant T (zones that switch at local midnight): the generator reads the state before T
+    # for the first observance and finds the change one second after its starting point - the real observance begins at T + 1 s (plus the
+    # shift of onset-in-new-local-time).  Modelled exactly; [T, that onset) is a window of the known finding below.
+    pre_windows = []
+    before_lo, at_lo = state_at(tz, lo - timedelta(seconds=1)), state_at(tz, lo)
+    if before_lo[0] != at_lo[0] and len(gen_rows) > 1 and gen_rows[0][1] == before_lo:
+        d0 = at_lo[0] - before_lo[0]
+        shift0 = d0 if (prov == "pytz" or d0 > 0) else 0
+        if gen_rows[1][0] == lo + timedelta(seconds=shift0 + 1) and gen_rows[1][1] == at_lo:
+            pre_windows.append([lo, gen_rows[1][0], "transition-at-window-start-late", before_lo])
+            gen_rows = gen_rows[1:]
     ok, windows, problem = align(prov, src_ext, gen_rows, state_at(tz, lo), hi)
+    windows = pre_windows + windows
     if not ok:
         ctx.fail("table-unexplained", observed=problem, expected="the source zone's transitions (allowing only the known mechanisms)",
                  detail=comp.to_ical().decode()[:3000])
@@ -323,7 +342,7 @@ def check_case(ctx, case):
         ctx.fail("to_tz-raises", observed=f"{type(conv_err).__name__}: {conv_err}"[:200], expected="a tzinfo", key=key)
     for p in sorted(instants):
         p = p.replace(microsecond=0)
-        if not (lo <= p < hi):
+        if not (lo <= p < hi) or (edge and p == lo):
             continue
         want = state_at(tz, p)
         got = gen_state(tl, p)
